@@ -1,12 +1,14 @@
 package main
 
 import (
+	"crypto/sha256"
 	"fmt"
 	"os"
 	"os/exec"
 	"path/filepath"
 	"regexp"
 	"strings"
+	"sync"
 )
 
 func init() {
@@ -76,8 +78,39 @@ func modelInt(model, re string) int {
 
 // runOverlayTest runs an in-package test against /repo's working tree through a go test overlay
 // (nothing is written into the repository). It returns true when the test FAILS (violation reproduced).
+// results of overlay tests already run in this process (several obligations often share one witness)
+var (
+	overlayMu    sync.Mutex
+	overlayCache = map[string]overlayResult{}
+)
+
+type overlayResult struct {
+	ok     bool
+	detail string
+	rep    map[string]interface{}
+}
+
 func runOverlayTest(rep map[string]interface{}, pkgDir, fileName, src, testName string) (bool, string) {
-	dir := filepath.Join(verifDir(), "out", "replay", "src")
+	key := pkgDir + "|" + fileName + "|" + testName + "|" + fmt.Sprintf("%x", sha256.Sum256([]byte(src)))
+	overlayMu.Lock()
+	defer overlayMu.Unlock()
+	if r, ok := overlayCache[key]; ok {
+		for k, v := range r.rep {
+			rep[k] = v
+		}
+		return r.ok, r.detail
+	}
+	sub := map[string]interface{}{}
+	ok, detail := runOverlayTestOnce(sub, pkgDir, fileName, src, testName)
+	overlayCache[key] = overlayResult{ok, detail, sub}
+	for k, v := range sub {
+		rep[k] = v
+	}
+	return ok, detail
+}
+
+func runOverlayTestOnce(rep map[string]interface{}, pkgDir, fileName, src, testName string) (bool, string) {
+	dir := filepath.Join(outRoot(), "replay", "src")
 	_ = os.MkdirAll(dir, 0o755)
 	srcPath := filepath.Join(dir, sanitize(pkgDir)+"_"+fileName)
 	if err := os.WriteFile(srcPath, []byte(src), 0o644); err != nil {
